@@ -53,8 +53,12 @@ def gen(ch, tier):
                                    precisions=(None,), combined_only=not non_combined)
     if non_combined:
         scn["dissim"] = {"kind": "pos", "delta_empty": scn["dissim"]["delta_empty"]}
+    # history: the same alignments queried again with a sweep of freshly built (and then dropped) dissimilarities
+    sweep = None
+    if not non_combined and ch.coin(0.15):
+        sweep = ch.sample([0.25, 0.75, 1.5, 2.0, 4.0, 5.0], 4)
     return {"scenario": scn, "schedules": [world.gen_schedule(ch.sub(f"sched{i}")) for i in range(k)],
-            "partition_seed": ch.randint(0, 2**31 - 1)}
+            "partition_seed": ch.randint(0, 2**31 - 1), "sweep": sweep}
 
 
 def random_partition(continuum, seed):
@@ -178,6 +182,51 @@ def run(case):
                                        "sig": {}, "schedule_index": i})
             if violations:
                 break
+    # ---- history: parameter sweep over fresh dissimilarity objects on the SAME alignment objects ------------
+    if not violations and case.get("sweep"):
+        import gc
+        from pygamma_agreement.continuum import GammaResults
+        stats["sweeps"] = 1
+        # the components are built once; only the combined object is created and dropped per step, as in a
+        # user's parameter sweep (`for alpha in ...: d = Combined(alpha=alpha, ...); ...`), so that CPython is
+        # likely to hand the address of a dropped dissimilarity to the next one
+        base = world.build_dissim(scn["dissim"])
+        seen_ids = set()
+        d2 = None
+        beta_, de_ = scn["dissim"]["beta"], scn["dissim"]["delta_empty"]
+        for alpha in list(case["sweep"]) + list(case["sweep"])[:2]:
+            d2 = pa.CombinedCategoricalDissimilarity(alpha=alpha, beta=beta_, delta_empty=de_,
+                                                     pos_dissim=base.positional_dissim, cat_dissim=base.categorical_dissim)
+            if id(d2) in seen_ids:
+                stats["sweep_address_reused"] = stats.get("sweep_address_reused", 0) + 1
+            seen_ids.add(id(d2))
+            per = []
+            for name, al in alignments[:len(g.chance_alignments) + 1]:
+                lib = float(al.gamma_k_disorder(d2, None))
+                ref = gm.categorical_disorder(al, d2, None)
+                per.append(lib)
+                stats["disorders_modelled"] = stats.get("disorders_modelled", 0) + 1
+                if not ao.close(lib, ref, rel=2e-5, abs_=2e-6):
+                    violations.append({"kind": "categorical_disorder",
+                                       "msg": f"sweep alpha={alpha}: gamma_k_disorder({name}, None) with a freshly built dissimilarity = "
+                                              f"{lib!r}, reference model gives {ref!r} (same alignment object was queried before with "
+                                              f"other dissimilarities)", "sig": {"category": "cat", "sweep": True}})
+                    break
+            if not violations:
+                g2 = GammaResults(best_alignment=g.best_alignment, chance_alignments=g.chance_alignments, dissimilarity=d2)
+                o = common.sim_call(lambda: g2.gamma_cat, case["schedules"][0])
+                common.sim_stats(o, stats)
+                expect = gm.gamma_from_disorders(per[0], per[1:], "cat")
+                if o.error is None and expect is not None and not ao.close(float(o.value), expect, rel=1e-4, abs_=1e-5):
+                    violations.append({"kind": "aggregation",
+                                       "msg": f"sweep alpha={alpha}: gamma_cat of GammaResults over the same alignments = {float(o.value)!r}, "
+                                              f"expected {expect!r}", "sig": {"what": "cat", "sweep": True}})
+                g2 = None
+                o = None
+            # drop the dissimilarity right before the next one is created (no allocation in between)
+            if violations:
+                break
+            d2 = None
     return {"violations": violations, "stats": stats, "keys": keys,
             "digest": digest([results, [v["kind"] for v in violations]]),
             "sample": {"scenario": scn, "schedules": case["schedules"][:1],
@@ -196,6 +245,10 @@ def shrink_candidates(case, violation):
             continue
         c = copy.deepcopy(case)
         c["scenario"] = s
+        yield c
+    if case.get("sweep") and not violation.get("sig", {}).get("sweep"):
+        c = copy.deepcopy(case)
+        c["sweep"] = None
         yield c
     if len(case["schedules"]) == 1:
         for s in common.shrink_schedule(case["schedules"][0]):
